@@ -17,10 +17,12 @@ use egglog_concurrency::ReadOptimizedLock;
 
 use super::atomic_int::AtomicInt;
 
+#[cfg(not(kani))]
 pub struct Buffer<T> {
     data: ReadOptimizedLock<Vec<T>>,
 }
 
+#[cfg(not(kani))]
 impl<T: AtomicInt> Clone for Buffer<T> {
     fn clone(&self) -> Self {
         let reader = self.data.read();
@@ -38,6 +40,7 @@ impl<T: AtomicInt> Clone for Buffer<T> {
     }
 }
 
+#[cfg(not(kani))]
 impl<T: Send + Sync + 'static> Buffer<T> {
     /// Initialize a new buffer with the given capacity.
     pub fn new(capacity: usize, mut init: impl FnMut(usize) -> T) -> Buffer<T> {
@@ -95,5 +98,66 @@ impl<T: Send + Sync + 'static> Buffer<T> {
             *x = init(i);
             i += 1;
         });
+    }
+}
+
+// Verification stand-in (cfg(kani) only): the real buffer sits on `ReadOptimizedLock`, whose `ArcSwap`
+// cannot be compiled by Kani. Same API, plain `Vec`, no resizing protocol.
+#[cfg(kani)]
+pub struct Buffer<T> {
+    data: std::cell::UnsafeCell<Vec<T>>,
+}
+
+#[cfg(kani)]
+unsafe impl<T: Send + Sync> Sync for Buffer<T> {}
+
+#[cfg(kani)]
+impl<T: AtomicInt> Clone for Buffer<T> {
+    fn clone(&self) -> Self {
+        let reader = unsafe { &*self.data.get() };
+        let mut new = Vec::with_capacity(reader.len());
+        for x in reader.iter() {
+            new.push(T::from_usize(T::as_usize(x.load())));
+        }
+        Self {
+            data: std::cell::UnsafeCell::new(new),
+        }
+    }
+}
+
+#[cfg(kani)]
+impl<T: Send + Sync + 'static> Buffer<T> {
+    pub fn new(capacity: usize, mut init: impl FnMut(usize) -> T) -> Buffer<T> {
+        let mut vec = Vec::with_capacity(capacity);
+        for i in 0..capacity {
+            vec.push(init(i));
+        }
+        Buffer {
+            data: std::cell::UnsafeCell::new(vec),
+        }
+    }
+
+    pub(crate) fn from_vec(vec: Vec<T>) -> Buffer<T> {
+        Buffer {
+            data: std::cell::UnsafeCell::new(vec),
+        }
+    }
+
+    pub fn with_access<R>(
+        &self,
+        len: usize,
+        mut f: impl FnMut(&[T]) -> R,
+        _init: impl FnMut(usize) -> T + Send + Clone + 'static,
+    ) -> R {
+        let data = unsafe { &*self.data.get() };
+        assert!(data.len() >= len, "cfg(kani) Buffer stand-in: resizing is not modelled");
+        f(data)
+    }
+
+    pub fn re_init(&self, mut init: impl FnMut(usize) -> T + Send + Clone + 'static) {
+        let data = unsafe { &mut *self.data.get() };
+        for (i, x) in data.iter_mut().enumerate() {
+            *x = init(i);
+        }
     }
 }
